@@ -6,8 +6,9 @@ from fractions import Fraction
 
 from .frontend import AnalysisBroken
 
-CHILD_KEYS = ('c', 'args', 'decls')
-CHILD_SINGLE = ('fn', 'cond', 'then', 'else', 'init', 'inc', 'body', 'lhs', 'rhs', 'sub')
+CHILD_KEYS = ('c', 'args', 'decls', 'catches', 'resources', 'dims')
+CHILD_SINGLE = ('fn', 'cond', 'then', 'else', 'init', 'inc', 'body', 'lhs', 'rhs', 'sub',
+                'block', 'finally', 'recv', 'range', 'param', 'var')       # the last row: Java trees (tools/JavaFacts.java)
 
 
 def children(n):
